@@ -16,7 +16,7 @@ Inductive cexpr : Type :=
 | CNeg (a : cexpr)
 | CInv (a : cexpr).
 
-Definition occ := list Z.
+Notation occ := (list Z) (only parsing).
 Definition oget (n : occ) (i : nat) : Z := nth i n 0%Z.
 
 (** total evaluation (Coq convention 1/0 = 0) *)
